@@ -28,7 +28,8 @@ def p1(chk, shapes, switches):
         if r.violated:
             chk.violation(f"mechanism model Optimize[{name}] violates {r.violated}", replay=dict(shape=name))
     for label, kw, shape, exp in switches:
-        r = run_tlc("MCO", cfg=dict(spec="Spec", constants=optmc.constants(**kw), invariants=INV, deadlock=False),
+        # a vacuity job checks only the clause that must fail (several workers could otherwise report another broken clause first)
+        r = run_tlc("MCO", cfg=dict(spec="Spec", constants=optmc.constants(**kw), invariants=[exp] if isinstance(exp, str) else INV, deadlock=False),
                     extra_modules={"MCO.tla": optmc.mc_module("MCO", optmc.SHAPES[shape])}, timeout=1200)
         chk.add_tlc("Optimize/switch-" + label, r, expect_violation=exp)
 
